@@ -376,29 +376,30 @@ def generic(name, spec):
 def msg_state(it, st, loc, path):
     """abstract content of a char buffer: 'empty' | 'nonempty' | 'unknown'"""
     v = st.mem.get((loc, path + '#'))
-    if v is not None:
+    if v is not None and v != 'unknown':
         return v
     z = st.mem.get((loc, path + '[0]'))
     if isinstance(z, Int):
         return 'empty' if z.v == 0 else 'nonempty'
-    if loc in st.zero:
+    if v is None and loc in st.zero:
         return 'empty'
-    tk = ('pure', 'strlen', vkey(Ref(loc, path)))
-    vals = it.feasible_vals(st, tk) if (tk in st.cons or tk in st.dom) else None
-    if vals is not None:
-        if all(x == 0 for x in vals):
-            return 'empty'
-        if all(x != 0 for x in vals):
-            return 'nonempty'
+    # what the path learnt about the content: through strlen(buf) or through a test of its first byte
+    for tk in (('pure', 'strlen', vkey(Ref(loc, path))), ('mem', loc, path + '[0]')):
+        vals = it.feasible_vals(st, tk) if (tk in st.cons or tk in st.dom) else None
+        if vals is not None:
+            if all(x == 0 for x in vals):
+                return 'empty'
+            if all(x != 0 for x in vals):
+                return 'nonempty'
     return 'unknown'
 
 
 def set_msg(it, st, loc, path, state):
     st.mem[(loc, path + '#')] = state
     st.mem.pop((loc, path + '[0]'), None)
-    tk = ('pure', 'strlen', vkey(Ref(loc, path)))
-    st.cons.pop(tk, None)
-    st.dom.pop(tk, None)
+    for tk in (('pure', 'strlen', vkey(Ref(loc, path))), ('mem', loc, path + '[0]')):
+        st.cons.pop(tk, None)
+        st.dom.pop(tk, None)
 
 
 def fmt_nonempty(fmt):
